@@ -291,11 +291,12 @@ class EventMixin (object):
     # processing.  It might make sense to change this.
     handlers = list(self._eventMixin_handlers.get(eventType, []))
     for (priority, handler, once, eid) in handlers:
+      # A one-shot handler is done even if it raises an exception
+      if once: self.removeListener(eid)
       if classCall:
         rv = event._invoke(handler, *args, **kw)
       else:
         rv = handler(event, *args, **kw)
-      if once: self.removeListener(eid)
       if rv is None: continue
       if rv is False:
         self.removeListener(eid)
